@@ -77,6 +77,33 @@ def call2 (P : Poly2d) (x y : Arg) : Except CallErr (List Rat × List Rat) :=
 /-- `P(pts)` for an `N×2` array: `self(x[..., 0], x[..., 1]).T`, i.e. the `N×2` array of images. -/
 def callN (P : Poly2d) (pts : List (Rat × Rat)) : List (Rat × Rat) := pts.map P.eval
 
+/-! #### arrays of more than one dimension -/
+
+/-- row-major multi-index of flat index `i` in an array of shape `dims` -/
+def unravel : List Nat → Nat → List Nat
+  | [], _ => []
+  | _ :: ds, i => (i / ds.prod) :: unravel ds (i % ds.prod)
+
+/-- row-major flat index of a multi-index -/
+def ravel : List Nat → List Nat → Nat
+  | _ :: ds, j :: js => j * ds.prod + ravel ds js
+  | _, _ => 0
+
+/-- `arr.T` on a flat row-major list: the axes reversed. -/
+def transposeFlat {α : Type} [Inhabited α] (shape : List Nat) (vals : List α) : List α :=
+  (List.range shape.prod).map fun o => vals.getD (ravel shape (unravel shape.reverse o).reverse) default
+
+/-- `P(x, y)` for two arrays of the **same** shape (any number of dimensions), flattened row-major: both outputs,
+flattened, of shape `shape` each (the result array has shape `(2, *shape)`). -/
+def callNd (P : Poly2d) (xs ys : List Rat) : List Rat × List Rat :=
+  (((xs.zip ys).map fun p => (P.eval p).1), ((xs.zip ys).map fun p => (P.eval p).2))
+
+/-- `P(X)` for one array `X` of shape `(*shape, 2)`: `self(X[..., 0], X[..., 1]).T` — the result `(2, *shape)` is
+transposed as a whole, so the output has shape `(*reversed(shape), 2)`: for the documented `N×2` input that is `N×2`, for
+an `a×b×2` input it is `b×a×2` with the two leading axes **swapped**.  Flat row-major list of output pairs. -/
+def callLast2 (P : Poly2d) (shape : List Nat) (pts : List (Rat × Rat)) : List (Rat × Rat) :=
+  transposeFlat shape (pts.map P.eval)
+
 end Poly2d
 
 /-! ### `Bin1D.__eq__` (math.py:607-614) -/
